@@ -2,6 +2,7 @@ package main
 
 import (
 	"fmt"
+	stackage "github.com/JesseCoretta/go-stackage"
 	"strconv"
 	"strings"
 )
@@ -293,7 +294,7 @@ func cmpCond(x *Exec, i int, m *MCond, k histKeys) string {
 	if g := w.describe(c.Auxiliary()); g != m.Aux && m.Aux != wild {
 		return fmt.Sprintf("Auxiliary()=%s, expected %s", g, m.Aux)
 	}
-	if f := dumpField(w.dump(i), "enc"); f != "" {
+	if f := dumpField(w.renderState(stackage.VerifDump(c), 0), "enc"); f != "" {
 		if want := encText(m.Enc); normEnc(f) != normEnc(want) {
 			return fmt.Sprintf("encapsulation list is %s, expected %s", f, want)
 		}
